@@ -208,3 +208,46 @@ func TestC16_SharingDense(t *testing.T) {
 		r.Sample(c)
 	})
 }
+
+
+// TestC16_EvictionDense: like SharingDense, but with cached downloads and collection runs
+// dominating, pinned uploads included, and an aggressive run at the end: eviction of a cached file
+// whose chunks are shared with (deleted or live) uploaded/pinned files.
+func TestC16_EvictionDense(t *testing.T) {
+	r := evid.Get(id)
+	evid.Finish(t, r)
+	evid.Checks(100)
+	rapid.Check(t, func(t *rapid.T) {
+		c := nlhist.Gen(t, nlhist.GenOptions{MaxFiles: 3, MaxOps: 10, MaxBlocks: 2,
+			Kinds: []string{"upload", "upload", "fetch", "fetch", "fetch", "delete", "delete", "gc", "gc", "pin", "restart"}})
+		for i := range c.Files {
+			for j := range c.Files[i].Tags {
+				c.Files[i].Tags[j] %= 2
+			}
+			if len(c.Files[i].Tags) == 0 {
+				c.Files[i].Tags = []int{i % 2}
+			}
+			c.Files[i].Salt = i
+			if c.Files[i].Tail == 0 {
+				c.Files[i].Tail = 9
+			}
+		}
+		if rapid.Bool().Draw(t, "deleteFirstFileLate") {
+			c.Ops = append(c.Ops, nlhist.Op{K: "fetch", F: 1}, nlhist.Op{K: "delete", F: 0})
+		}
+		c.Ops = append(c.Ops, nlhist.Op{K: "gc", Arg: 1})
+		if rapid.Bool().Draw(t, "pinnedUploadFirst") {
+			c.Ops = append([]nlhist.Op{{K: "upload", F: 0, Flag: true}}, c.Ops...)
+		}
+		sig, err, st := run(c)
+		if err != nil {
+			t.Fatalf("%s", evid.Violation(id, sig, fmt.Sprintf("%v\ncase=%+v", err, c)))
+		}
+		cls := []string{"eviction-dense"}
+		for k := range st.classes {
+			cls = append(cls, k)
+		}
+		r.Case(evid.Hash64("evict", c), st.nt, cls...)
+		r.Sample(c)
+	})
+}
